@@ -65,6 +65,8 @@ func main() {
 		entryMode(args)
 	case "rw":
 		rwMode(args)
+	case "oracle":
+		oracleMode(args)
 	default:
 		fmt.Fprintln(os.Stderr, "unknown subcommand", cmd)
 		os.Exit(2)
